@@ -321,6 +321,102 @@ def r24_6(ctx, rep):
         raise MechanismMissing(R, "the completion step `if s not in states` for outputs was not found")
 
 
+@SPEC.rule(
+    "R24.7",
+    "the tables of names the generator consults (reserved names, prefixes) are what they look like: no element of a list/tuple/set of "
+    "names in sympy/generator.py is spelled as two adjacent string literals (a lost comma un-reserves both names)",
+)
+def r24_7(ctx, rep):
+    from ._literal import no_implicit_concat
+    no_implicit_concat(ctx, rep, "R24.7", SYM, "reserved names, prefixes")
+
+
+
+def _template_pieces(v):
+    """a string-building expression as a list of literal pieces (str) and filled-in expressions (ast): "...".format(...),
+    f-strings, "..." % (...), and + concatenations of those; None when it is something else"""
+    if isinstance(v, ast.Constant) and isinstance(v.value, str):
+        return [v.value]
+    if isinstance(v, ast.JoinedStr):
+        out = []
+        for x in v.values:
+            out.append(x.value if isinstance(x, ast.Constant) else x.value)
+        return out
+    if isinstance(v, ast.BinOp) and isinstance(v.op, ast.Add):
+        a, b = _template_pieces(v.left), _template_pieces(v.right)
+        return None if a is None or b is None else a + b
+    if isinstance(v, ast.Call) and isinstance(v.func, ast.Attribute) and v.func.attr == "format" and isinstance(v.func.value, ast.Constant) and isinstance(v.func.value.value, str):
+        kw = {k.arg: k.value for k in v.keywords}
+        out, auto = [], 0
+        for lit, field, _spec, _conv in string.Formatter().parse(v.func.value.value):
+            if lit:
+                out.append(lit)
+            if field is None:
+                continue
+            if field == "":
+                e = v.args[auto] if auto < len(v.args) else None
+                auto += 1
+            elif field.isdigit():
+                e = v.args[int(field)] if int(field) < len(v.args) else None
+            else:
+                e = kw.get(field)
+            if e is None:
+                return None
+            out.append(e)
+        return out
+    if isinstance(v, ast.BinOp) and isinstance(v.op, ast.Mod) and isinstance(v.left, ast.Constant) and isinstance(v.left.value, str):
+        args = list(v.right.elts) if isinstance(v.right, ast.Tuple) else [v.right]
+        parts = re.split(r"%[sdr]", v.left.value)
+        if len(parts) != len(args) + 1:
+            return None
+        out = []
+        for i, p_ in enumerate(parts):
+            if p_:
+                out.append(p_)
+            if i < len(args):
+                out.append(args[i])
+        return out
+    if isinstance(v, (ast.Subscript, ast.Name, ast.Attribute, ast.Call)):
+        return [v]
+    return None
+
+
+@SPEC.rule(
+    "R24.8",
+    "every equation is rendered as lhs minus rhs: each value SympyGenerator.exitEquation stores for the equation reads the rendered "
+    "left and right sides and joins them as `(<left>) - (<right>)`, left first, on every path — no special form for `0 = expr`, "
+    "`x = 0` or anything else (the roots would be the same, the residual's sign would not, and the linearisation's Jacobian with it)",
+)
+def r24_8(ctx, rep):
+    R = "R24.8"
+    fn = ctx.methods(SYM, "SympyGenerator", R).get("exitEquation")
+    if fn is None:
+        raise MechanismMissing(R, "SympyGenerator.exitEquation not found")
+    site = SYM + ":SympyGenerator.exitEquation"
+    stores = [st for st in walk_local(fn) if isinstance(st, ast.Assign) and isinstance(st.targets[0], ast.Subscript) and norm(st.targets[0].value) == "self.src"]
+    if not stores:
+        raise MechanismMissing(R, "exitEquation stores nothing in self.src")
+    arg = fn.args.args[1].arg
+    for st in stores:
+        v = st.value
+        reads = [norm(x) for x in ast.walk(v) if isinstance(x, ast.Subscript) and norm(x.value) == "self.src"]
+        pieces = _template_pieces(v)
+        tmpl = None
+        shape = False
+        if pieces is not None:
+            tmpl = "".join(p_ if isinstance(p_, str) else "@" for p_ in pieces)
+            filled = [norm(p_) for p_ in pieces if not isinstance(p_, str)]
+            shape = tmpl.replace(" ", "") in ("(@)-(@)", "@-(@)") and filled == ["self.src[%s.left]" % arg, "self.src[%s.right]" % arg]
+        rep.ob(R, site, "`%s` is (left) - (right)" % norm(st)[:70], shape,
+               "the stored text is not `(<rendered left side>) - (<rendered right side>)` (template %r, operands %s): this equation's residual "
+               "is not lhs - rhs" % (tmpl, reads))
+    from ..cfg import CFG
+    cfg = CFG(fn, R)
+    nodes = {x.id for x in cfg.stmts() if x.ast in stores}
+    bad = cfg.must_pass(cfg.entry, cfg.exit, nodes)
+    rep.ob(R, site, "every equation gets a residual", bad is None, "exitEquation can return without storing the equation's text", path=cfg.describe(bad) if bad else "")
+
+
 # -- seeded variants ---------------------------------------------------------
 from ._mut import replace_in_func  # noqa: E402
 
@@ -394,3 +490,12 @@ def _m_fold(mod):
         return False
 
     return mod if replace_in_func(mod, CLS + ".exitClass", edit) else None
+
+
+@SPEC.mutant("`0 = expr` rendered as the bare right-hand side", SYM, "R24.8", "(left) - (right)")
+def _m_zero_lhs(mod):
+    def edit(fn):
+        fn.body.insert(0, ast.parse("if isinstance(tree.left, ast.Primary) and tree.left.value == 0:\n    self.src[tree] = '({right:s})'.format(right=self.src[tree.right])\n    return").body[0])
+        return True
+
+    return mod if replace_in_func(mod, "SympyGenerator.exitEquation", edit) else None
